@@ -195,7 +195,7 @@ def condense[S](
     condensed_edges: dict[int, set[int]] = defaultdict(set)
 
     iterations = scc_result.iterations
-    for v in node_list:
+    for v in node_to_component:
         iterations += 1
         v_comp = node_to_component[v]
         for w in neighbors(v):
